@@ -599,7 +599,15 @@ func r015(c *Ctx) {
 	const rule = "R01.5 probe-success-is-2xx-within-timeout"
 	c.floor(rule, 4)
 	fn := c.method("HealthCheck", "check")
-	report := c.method("HealthCheck", "reportResult")
+	// where the verdict is handed to the consumer: consumer.HealthCheckCompleted(success) - the reporting helper of the
+	// reference tree (reportResult) is always expanded into check (de-anchored), so that a reshaped or inlined helper
+	// reads the same
+	var verdicts []callSite
+	for _, cs := range callsIn(fn) {
+		if cs.common().IsInvoke() && cs.common().Method.Name() == "HealthCheckCompleted" && len(cs.common().Args) == 1 {
+			verdicts = append(verdicts, cs)
+		}
+	}
 	var doCalls []*ssa.Call
 	for _, cs := range callsIn(fn) {
 		if n := calleeName(cs.common()); n == "(*net/http.Client).Do" {
@@ -619,12 +627,12 @@ func r015(c *Ctx) {
 		return len(chain) >= 1 && chain[len(chain)-1].Name() == "StatusCode" && chain[len(chain)-1].Pkg() != nil && chain[len(chain)-1].Pkg().Path() == "net/http"
 	}
 	nTrue := 0
-	for _, cs := range callsTo(fn, report) {
+	for _, cs := range verdicts {
 		// the ways this call can report success, each with the conditions known on that way: a constant true, or
 		// `x == nil` for an error x that is a merge of nil / freshly made errors (an inlined "statusError(code)" helper)
 		type succCase struct{ conds []condEdge }
 		var trueCases []succCase
-		arg := cs.common().Args[1]
+		arg := resolve(cs.common().Args[0])
 		if b, isConst := constBool(arg); isConst {
 			if b {
 				trueCases = append(trueCases, succCase{dominatingConds(cs.instr.Block())})
@@ -896,28 +904,36 @@ func r016n(c *Ctx, rule string) {
 		}
 		c.ob(rule, "updateHealthyTargets/append-guarded-by-State()==healthy", st.Pos(), okAll, true, "each appended target must be tested State()==TargetStateHealthy on the dominating branch")
 	}
-	// nextTarget returns nil or an element of lb.healthy
-	nt := c.method("LoadBalancer", "nextTarget")
-	for _, ret := range normalReturns(nt) {
-		for _, src := range phiSources(retVal(ret, 0)) {
-			ok := isNilConst(src)
-			if u, isU := src.(*ssa.UnOp); isU && u.Op == token.MUL {
-				if ia, isIA := u.X.(*ssa.IndexAddr); isIA && isLoadOfField(ia.X, healthyF) {
-					ok = true
-				}
-			}
-			c.ob(rule, "nextTarget/returns-rotation-element-or-nil", ret.Pos(), ok, true, "nextTarget may only return nil or lb.healthy[i]")
-		}
-	}
-	// claimTarget obtains the target only from nextTarget and starts the request on it
+	// claimTarget starts the request on nil-checked lb.healthy[i] and nothing else (the selection helper of the reference
+	// tree, nextTarget, is de-anchored: always expanded into claimTarget)
 	ct := c.method("LoadBalancer", "claimTarget")
 	sr := c.method("Target", "StartRequest")
 	for _, cs := range callsTo(ct, sr) {
 		recv := cs.common().Args[0]
-		call, ok := recv.(*ssa.Call)
-		c.ob(rule, "claimTarget/target-from-nextTarget", cs.pos(), ok && isCallTo(call.Common(), nt), true, "the claimed target must be the result of nextTarget()")
+		okSrc, nSrc := true, 0
+		for _, src := range phiSources(recv) {
+			if isNilConst(src) {
+				continue
+			}
+			nSrc++
+			u, isU := src.(*ssa.UnOp)
+			if !isU || u.Op != token.MUL {
+				okSrc = false
+				continue
+			}
+			if ia, isIA := u.X.(*ssa.IndexAddr); !isIA || !isLoadOfField(ia.X, healthyF) {
+				okSrc = false
+			}
+		}
+		c.ob(rule, "claimTarget/target-is-an-element-of-the-rotation", cs.pos(), okSrc && nSrc >= 1, true, "the claimed target must be lb.healthy[i]")
 		_, nonNil := nilKnowledge(cs.instr, sameAs(recv))
-		c.ob(rule, "claimTarget/nil-target-not-used", cs.pos(), nonNil, true, "StartRequest must be on the non-nil branch")
+		mayBeNil := false
+		for _, src := range phiSources(recv) {
+			if isNilConst(src) {
+				mayBeNil = true
+			}
+		}
+		c.ob(rule, "claimTarget/nil-target-not-used", cs.pos(), nonNil || !mayBeNil, true, "StartRequest must be on the non-nil branch (when 'no target' is represented by nil)")
 	}
 	for _, u := range c.usesOfFunc(sr) {
 		o := fname(outer(u.in))
